@@ -501,7 +501,7 @@ def run_script(which, script, timeout=300):
             f.write(script)
         cmd = lib.shell_cmd(which, p, (), "file")
         try:
-            r = subprocess.run(cmd, stdin=subprocess.DEVNULL, stdout=subprocess.PIPE, stderr=subprocess.STDOUT,
+            r = lib.sp_run(cmd, stdin=subprocess.DEVNULL, stdout=subprocess.PIPE, stderr=subprocess.STDOUT,
                                env=lib.BASE_ENV, timeout=timeout, cwd=d)
             return r.returncode, r.stdout.decode("utf-8", "replace")
         except subprocess.TimeoutExpired:
@@ -1072,6 +1072,15 @@ def sweep_blocks(cid, expr, env):
     # the subscript is quoted: unquoted, brush's tokenizer rejects blanks, parentheses and operator characters in the
     # subscript of an assignment word (clause unquoted_metachar_in_assignment_subscript, own witnesses in ISOLATED)
     add("sublhs", pre + "\nQ_[\"(" + expr + ")&7\"]=z\n" + 'echo "#%s k ${!Q_[*]}"' % ident("sublhs") + "\n" + dmp("sublhs"))
+    # subscripts inside an array literal (quoted for the same reason): plain assignment and `+=` must equal bash; the
+    # declare / local / readonly forms do not evaluate the subscript (clause declare_array_literal_subscript_not_evaluated)
+    lit = '(["(' + expr + ')&7"]=z)'
+    kline = lambda c: 'echo "#%s k ${!Q_[*]}"' % ident(c)
+    add("litsub", pre + "\nQ_=" + lit + "\n" + kline("litsub") + "\n" + dmp("litsub"))
+    add("litadd", pre + "\nQ_=(p q)\nQ_+=" + lit + "\n" + kline("litadd") + "\n" + dmp("litadd"))
+    add("declit", pre + "\ndeclare -a Q_=" + lit + "\n" + kline("declit") + "\n" + dmp("declit"))
+    add("loclit", pre + "\nf_() {\nlocal -a Q_=" + lit + "\n" + kline("loclit") + "\n" + dmp("loclit") + "\n}\nf_")
+    add("rolit", pre + "\nreadonly -a Q_=" + lit + "\n" + kline("rolit") + "\n" + dmp("rolit"))
     # no `<` / `>` inside ${…}: `<<` there is clause shift_in_parameter_expansion_read_as_heredoc (own witnesses), and bash
     # itself re-tokenizes an unspaced `(z<=3)` inside "${a[…]}" / "${s:…}" into `z < =3` (a bash quirk, not arithmetic)
     if "<" not in expr and ">" not in expr:
@@ -1104,6 +1113,13 @@ def sweep_clause(c, expr, env, b, o):
     """recorded defect classes a context difference may belong to"""
     if c == "locali":
         return "integer_attribute_assignment_not_evaluated"
+    if c in ("declit", "loclit", "rolit"):
+        # only this shape: brush did not evaluate the (never plain-decimal) subscript `(E)&7` and stored the element at
+        # index 0, while bash evaluated it (the sweep's cases all evaluate to a value in bash)
+        bk = [l for l in (b or []) if l.startswith("k ")]
+        ok = [l for l in (o or []) if l.startswith("k ")]
+        if bk == ["k 0"] and len(ok) == 1 and re.fullmatch(r"k [0-7]", ok[0]):
+            return "declare_array_literal_subscript_not_evaluated"
     return None
 
 
